@@ -172,7 +172,18 @@ void record_wide(const std::string& outdir, std::uint64_t seed, int executions, 
     // no more stored cofaces than the other one disappears), then only disjoint fresh edges
     std::vector<bj::object> script;
     const bool scripted = (ex % 2 == 1);
-    if (scripted) {
+    // every sixth execution: the two contracted vertices have a common stored coface {a, b, x} and a has a large star
+    // that was never cleaned (no read during the burst); the faces {a, x} / {b, x} and {x} of the renamed simplex must
+    // still be there after the contraction: asked on the contraction event itself
+    const bool coface = (ex % 6 == 3);
+    std::vector<std::vector<int>> directed;
+    if (coface) {
+      int a = take(), b = take(), x = take(), k = 7 + rnd(3);
+      { std::vector<int> t{a, b, x}; std::sort(t.begin(), t.end()); script.push_back({{"op", "insert"}, {"s", jarr(t)}}); }
+      for (int i = 0; i < k; ++i) { std::vector<int> e{a, take()}; std::sort(e.begin(), e.end()); script.push_back({{"op", "insert"}, {"s", jarr(e)}}); }
+      if (rnd(2)) script.push_back({{"op", "contract"}, {"x", a}, {"y", b}}); else script.push_back({{"op", "contract"}, {"x", b}, {"y", a}});
+      directed = {{x}, {std::min(a, x), std::max(a, x)}, {std::min(b, x), std::max(b, x)}, {a}, {b}, {std::min(a, b), std::max(a, b)}};
+    } else if (scripted) {
       int a = take(), b = take(), k = 3 + rnd(2);
       std::vector<int> leaves;
       for (int i = 0; i < k; ++i) leaves.push_back(take());
@@ -224,7 +235,15 @@ void record_wide(const std::string& outdir, std::uint64_t seed, int executions, 
         // reads evaluate the ALPHA test and clean as they go (raising the threshold of the size-based cleaning): the
         // scripted executions read nothing until their burst of insertions is over
         const bool quiet = scripted && stp < static_cast<int>(script.size()) + 18;
-        if (!quiet && rnd(3) == 0) {
+        if (coface && stp + 1 == static_cast<int>(script.size())) {
+          bj::array qs;
+          for (auto& sq : directed) {
+            bj::object q{{"s", jarr(sq)}, {"mem", m.tm.membership(L::lab(sq))}};
+            if (sq.size() >= 2) q["afi"] = m.tm.all_facets_inside(L::lab(sq));
+            qs.push_back(q);
+          }
+          ev["q"] = qs;
+        } else if (!quiet && rnd(3) == 0) {
           bj::array qs;
           for (int qi = 0; qi < 3; ++qi) {
             std::vector<int> s{used[rnd(static_cast<int>(used.size()))]};
